@@ -74,7 +74,7 @@ def main():
        "kind_free_text": "TLC judges sessions recorded from the real code with the clauses of spec/Clauses.tla"},
       {"name": "tlc-behaviour-generation", "path": "spec/Gen_Main.tla", "serves_properties": sorted(CHECKS),
        "kind_free_text": "TLC generates game descriptions, call scripts and presentation changes"},
-      {"name": "tlc-model-checking", "path": "spec/MC_Solver.tla", "serves_properties": ["C02", "C03", "C05", "C06", "C10"],
+      {"name": "tlc-model-checking", "path": "spec/MC_Solver.tla", "serves_properties": ["C02", "C03", "C04", "C05", "C06", "C10", "C14"],
        "kind_free_text": "design-level model checking of the pipeline state machine (spec/Solver.tla)"},
       {"name": "tlc-batch", "path": "spec/Batch.tla", "serves_properties": ["C12", "C16"],
        "kind_free_text": "batch protocol model (MC_Batch*.cfg) and trace validation (spec/Trace_Batch.tla, spec/Report.tla)"},
